@@ -75,6 +75,17 @@ def run(tier, seed):
         res.add('distinct_nontrivial', cov['distinct_observation_vectors'])
         res.violations.extend(r.violations)
         res.sample({'world': desc['name'], 'alphabet_after_new': histories.alphabet(desc, [['new', 0, sp['variants'][0]]], sp)[:8]})
+    # real interpreter boundaries: every sequence of <= k segments, each segment in its own fresh process on one data directory
+    from tcv import procleg
+    for wname, variants, tasks in (('chain3', ['v0', 'v1'], ['a', 'c']), ('mount2', ['v12', 'v21'], ['n2::y', 'z'])):
+        if tier == 'quick' and wname == 'chain3':
+            continue  # quick: one world, 20 histories / 36 interpreter starts
+        desc = families.ALL[wname]()
+        r = procleg.run_leg('C01', desc, variants if tier == 'quick' else list(desc['variants'])[:3], tasks, 2 if tier == 'quick' else 3, seed)
+        res.coverage.setdefault('process_leg', {})[wname] = dict(histories=r.coverage.get('process_histories', 0), interpreter_starts=r.coverage.get('interpreter_starts', 0))
+        res.add('evaluations', r.coverage.get('evaluations', 0))
+        res.add('transitions', r.coverage.get('transitions', 0))
+        res.violations.extend(r.violations)
     res.coverage['traces_validated_against_impl'] = res.coverage['evaluations']
     res.coverage['exhaustive'] = True
     res.coverage['rule'] = ('per world: every history over {new(slot,variant), value(slot,task), task force, fail(task), restart} up to the stateless depth, '
@@ -89,6 +100,11 @@ def replay(case):
     import tcv
 
     tcv.quiet_library()
+    if case.get('kind') == 'proc':
+        from tcv import procleg
+        from tcv.core import Violation as V
+        vs, n = procleg._job((families.ALL[case['world']](), case['segs'], 'C01', 0))
+        return [V(v['signature'], v['what'], v['case']) for v in vs]
     desc = families.ALL[case['world'] if case['world'] != 'types' else 'types_line']()
     sp = specs.build(desc, ops=('new',))
     vs, c, ov = histories.run_history(desc, case['hist'], judge(desc, sp))
